@@ -136,6 +136,11 @@ def run(ctx):
     for n, (pb, mb, sbits) in enumerate(triples):
         routed.append(((pb, mb, sbits), "direct", lambda pb=pb, mb=mb, sbits=sbits:
                        sb.ShardSpec(mb, sbits, preshift_bits=pb)))
+        # the specification as the --sharding option path writes it into an info (to_dict) and an
+        # accessor reads it back
+        routed.append(((pb, mb, sbits), "option-dict", lambda pb=pb, mb=mb, sbits=sbits:
+                       sb.ShardSpec(**{k: v for k, v in sb.ShardSpec(mb, sbits, preshift_bits=pb).to_dict().items()
+                                       if k != "@type"})))
         # the specification as the accessors obtain it from a dataset's info file:
         # the writer's path (get_volume_shard_spec) and the readers' (get_sharding_spec)
         d = os.path.join(work, "ds%d" % n)
